@@ -16,6 +16,7 @@ import (
 	"os/exec"
 	"reflect"
 	"strings"
+	"sync"
 )
 
 type vWitness struct {
@@ -426,3 +427,25 @@ func vValidKind(doc []byte, kind string) bool {
 	}
 	panic("validator failed: " + res + " " + fmt.Sprint(err))
 }
+
+// ---- concurrency (C17): natively the shared values really are shared ----
+const vC17DocText = `{"swagger":"2.0","info":{"title":"t","version":"1"},"paths":{},"definitions":{"A":{"description":"a","properties":{"x":{"type":"string","x-e":1}}}}}`
+
+var (
+	vSharedOnce  sync.Once
+	vSharedDocV  *Swagger
+	vSharedCacheV ResolutionCache
+)
+
+func vSharedInit() {
+	vSharedOnce.Do(func() {
+		vSharedDocV = new(Swagger)
+		_ = json.Unmarshal([]byte(vC17DocText), vSharedDocV)
+		vSharedCacheV = defaultResolutionCache()
+	})
+}
+func vSharedDoc() *Swagger           { vSharedInit(); return vSharedDocV }
+func vSharedCache() ResolutionCache  { vSharedInit(); return vSharedCacheV }
+func vShare(v interface{}, name string) {}
+func vTraceBegin()                      {}
+func vTraceEnd(name string)             {}
